@@ -970,6 +970,9 @@ impl Repr {
 
     /// Emit a high-level representation into an IEEE802.15.4 frame.
     pub fn emit<T: AsRef<[u8]> + AsMut<[u8]>>(&self, frame: &mut Frame<T>) {
+        // Clear the bits of the frame control field that have no setter
+        // (reserved, sequence number suppression, IE present).
+        frame.buffer.as_mut()[field::FRAMECONTROL].fill(0);
         frame.set_frame_type(self.frame_type);
         frame.set_security_enabled(self.security_enabled);
         frame.set_frame_pending(self.frame_pending);
